@@ -311,19 +311,34 @@ fn install_crash_handlers() {
     }
 }
 
+fn process_cpu() -> Duration {
+    let mut ts = libc::timespec { tv_sec: 0, tv_nsec: 0 };
+    unsafe { libc::clock_gettime(libc::CLOCK_PROCESS_CPUTIME_ID, &mut ts) };
+    Duration::new(ts.tv_sec as u64, ts.tv_nsec as u32)
+}
+
+/// A case is a hang when it has been running for longer than the budget in wall time *and* the
+/// worker has burnt at least half the budget in CPU time on it (a loop that does not end), or
+/// when it has been blocked for six budgets of wall time (a wait that does not end). The CPU
+/// condition keeps a starved machine (many checks at once) from turning slowness into a verdict.
 fn start_watchdog(budget_s: u64) {
     std::thread::spawn(move || {
         let mut last = CASE_COUNTER.load(Ordering::SeqCst);
         let mut since = Instant::now();
+        let mut cpu0 = process_cpu();
         loop {
             std::thread::sleep(Duration::from_millis(250));
             let cur = CASE_COUNTER.load(Ordering::SeqCst);
             if cur != last || !IN_CHECK.load(Ordering::SeqCst) {
                 last = cur;
                 since = Instant::now();
+                cpu0 = process_cpu();
             } else if cur > 0 && since.elapsed() > Duration::from_secs(budget_s) {
-                dump_current(b"\nVH-HANG-CASE ");
-                unsafe { libc::_exit(71) }
+                let burnt = process_cpu().saturating_sub(cpu0);
+                if burnt > Duration::from_secs(budget_s / 2) || since.elapsed() > Duration::from_secs(6 * budget_s) {
+                    dump_current(b"\nVH-HANG-CASE ");
+                    unsafe { libc::_exit(71) }
+                }
             }
         }
     });
